@@ -47,6 +47,18 @@ CHECKS = [
         "text": "For every type of the grammar and every datum (C01 data plus numeric strings, the 14 boolean words in three casings, near-misses, '' and whitespace at every position): strict-accepted implies coerce-accepted with an equal typed value (union-free, no fall-back field); the coerce=True outcome equals the reference model extended with the documented table at primitive positions only, so acceptance through any other route is flagged; the settings route equals the parameter route; wrong-typed and raising custom coercers give exactly the strict outcome, a right-typed one the model's.",
         "note": "Trusted: reference model + the table as stated in the property (bool is not a number). Types with fall_back_on_default fields are exempt from the equal-value clause (an invalid field is accepted as its default in strict mode).",
     },
+    {
+        "id": "C04", "engine": "E1", "design_ref": "DESIGN.md §5 C04",
+        "technique": "bounded exhaustive enumeration of (type term, model-built value, serialization options) against an independent reference image model with a single omission formula",
+        "text": "Every type of the grammar (with serialized methods / properties, serialization_if / serialization_default, none_as_undefined, Undefined defaults, with_fields_set shapes) x every value built from the model's typed images of all skeleton data plus Undefined / None / default-equal / unset variants x exclude_none x exclude_defaults x exclude_unset x additional_properties x 3 aliasers is serialized by the real code; the output must contain only exact JSON classes and equal the reference image; check_type / fall_back_on_any must not change it; serialize(v) must equal serialize(type(v), v).",
+        "note": "Trusted: vf/refmodel/ser.py (written from the docs). Values are of their type. A str value under Union[Sequence[...], str] is excluded (str is a Python Sequence; dispatch undecided by the docs).",
+    },
+    {
+        "id": "C05", "engine": "E1", "design_ref": "DESIGN.md §5 C05",
+        "technique": "bounded exhaustive enumeration of the bijective fragment with a relational (round-trip) oracle on the real code",
+        "text": "For every type of the bijective fragment x every model-built value x 3 aliasers x additional_properties: deserialize(serialize(v)) is the typed value (classes at every position), also through json; for every accepted datum of the C01 space serialize(deserialize(d)) contains d and re-deserializes to an equal value; 15 standard-library converted types and 4 discriminated unions x 6 contexts x sample values.",
+        "note": "Non-bijective shapes are excluded by name and listed in the evidence. Known findings: non-dyadic Decimal; Optional[Union[...]] with inherited discriminator.",
+    },
 ]
 _PENDING = "check not built yet in this round (planned, see DESIGN.md §5); not claimed until it runs green"
-NOT_APPLICABLE = [{"property_id": f"C{i:02d}", "reason": _PENDING} for i in range(4, 20) if i not in (9, 13, 14, 15)]
+NOT_APPLICABLE = [{"property_id": f"C{i:02d}", "reason": _PENDING} for i in range(4, 20) if i not in (4, 5, 9, 13, 14, 15)]
